@@ -650,6 +650,8 @@ static void examine_brace(Chunk *bopen)
                || pc->Is(CT_SWITCH)
                || pc->Is(CT_USING_STMT)
                || (  pc->Is(CT_BRACE_OPEN)
+                  && pc->GetParentType() == CT_NONE)       // a nested plain block is a statement
+               || (  pc->Is(CT_BRACE_OPEN)
                   && pc->GetLevel() == bopen->GetLevel())) // Issue #1758
             {
                LOG_FMT(LBRDEL, "%s(%d): pc->Text() '%s', orig line is %zu, orig col is %zu, level is %zu\n",
